@@ -64,6 +64,9 @@ if os.path.exists(ma):
         if r.get("results", {}).get("error"):
             L.append(f"| {r['name']} | {r.get('file')} | {edit} | (pattern not found on this tree) | |")
             continue
+        if e.get("note"):
+            L.append(f"| {r['name']} | {r.get('file')} | {edit} | ({e['note']}) | |")
+            continue
         n += 1
         k += any(c.values())
         L.append(f"| {r['name']} | {r.get('file')} | {edit} | {', '.join(p for p, v in c.items() if v) or '—'} | {', '.join(p for p, v in c.items() if not v) or '—'} |")
